@@ -8,8 +8,6 @@ PROFILES = {
     # ContextRule 31, Context 21; can_enforce/enforce(context, signers, rule, account) = 68 argument words (<= AW 96, new
     # additive model feature aw96); key_data / sig_data `into_val` are digests of the injective oracle (valdigest)
     'sa_auth': {'features': ['cap2', 'bytes32', 'vw24', 'valdigest', 'aw96']},
-    # CAP 3: Vec<Signer> 22, ContextRule 39, Context 26, 88 argument words; call log 12, oracle table 12
-    'sa_auth3': {'features': ['cap3', 'bytes32', 'vw24', 'valdigest', 'aw96', 'nc12', 'nh12']},
     # CAP 3, Bytes 16: Signer 5, Vec<Signer> 16, ContextRule 31 (event <= EW 32; install(param, rule, account) 37 <= AW 40);
     # `to_xdr` = 4-byte handle of the injective oracle (new additive model feature xdrdigest: a faithful serialisation of a
     # Vec<Signer> can never fit into one model Bytes); bytesdirect: all byte-string lengths in the fingerprint are concrete
@@ -34,13 +32,11 @@ B_AUTH = 'CAP=2: 0..2 signatures; ' + AUTH_COMMON
 B_SEL = ('CAP=2: 1 context, 2 LISTED rules in the concrete list shape named by the harness (older slot, newer slot), <= 2 signers and <= 1 policy per '
          'rule, 0..2 supplied signers; ' + AUTH_COMMON)
 B_SEL2 = B_SEL.replace('<= 1 policy', '<= 2 policies')
-B_SEL3 = ('CAP=3: 1 context, 3 LISTED rules in the concrete list shape named by the harness, <= 3 signers and <= 1 policy per rule, 0..3 supplied signers; '
-          + AUTH_COMMON)
 B_ONE = ('CAP=2: whole check, 1 context, ONE listed rule (Default / own type) + one stored but unlisted rule, <= 2 signers and <= 2 policies per rule, '
          '0..2 signatures; ' + AUTH_COMMON)
 B_TWO = 'CAP=2: whole check, 1 context, an own-type rule and a Default rule, <= 2 signers and <= 1 policy per rule, 0..2 signatures; ' + AUTH_COMMON
-B_2CTX = ('CAP=2: whole check, batch of 2 contexts (same or different rule types, own id list each), one Default rule + one unlisted rule, <= 2 signers and '
-          '<= 1 policy per rule, 0..2 signatures; ' + AUTH_COMMON)
+B_2CTX = ('CAP=2: whole check, batch of 2 contexts (a contract call and a contract creation: different rule types, own id list each), one Default rule + '
+          'one unlisted rule, <= 1 signer and <= 1 policy per rule, 0..1 signatures; ' + AUTH_COMMON)
 CALLCTX = '; context: contract call (Context::Contract)'
 B_SEL_ANY = B_SEL.replace('in the concrete list shape named by the harness (older slot, newer slot)', 'of symbolic kinds (unlisted / own type / Default)')
 PINNED = ('; all foreign calls pinned to return (boolean answers arbitrary), verifier answers true, delegated signers grant (payload,), the reference finds a '
@@ -76,10 +72,7 @@ C03 = [
     A('select_own_default_2pol', SEL_FNS, B_SEL2 + CALLCTX, tier='thorough'),
     A('select_default_default_2pol', SEL_FNS, B_SEL2 + '; context: CreateContractWithCtorHostFn', tier='thorough'),
     A('check_auth_own_and_default_rule', AUTH_FNS, B_TWO + CALLCTX, tier='thorough'),
-    A('check_auth_2ctx_one_default_rule', AUTH_FNS, B_2CTX + '; both contexts contract calls (same or different contract)', tier='thorough'),
-    A('check_auth_2ctx_mixed', AUTH_FNS, B_2CTX.replace('one Default rule + one unlisted rule', 'an own-type rule of the first context + a Default rule') + '; a contract call and a contract creation', tier='thorough'),
-    A('select_own_own_default', SEL_FNS, B_SEL3 + CALLCTX, tier='thorough', profile='sa_auth3'),
-    A('select_own_default_default', SEL_FNS, B_SEL3 + CALLCTX, tier='thorough', profile='sa_auth3'),
+    A('check_auth_2ctx_one_default_rule', AUTH_FNS, B_2CTX, tier='thorough'),
 ]
 
 RULE_FNS = [SA + f for f in ('get_context_rule', 'compute_fingerprint', 'validate_and_set_fingerprint', 'remove_fingerprint',
@@ -123,9 +116,9 @@ CHECKS = {
     'C03': {
         'kani': C03,
         'bounds': ('split along do_check_auth = authenticate ; get_validated_context per context ; enforce per validated context. quick: ' + B_AUTH + ' | ' + B_SEL + ' | ' + B_ONE +
-                   ' | thorough adds: <= 2 policies per rule in the selection; whole check over two listed rules; batch of 2 contexts; CAP=3 selection over 3 listed rules'),
-        'outside_claim': ('rule sets beyond 3 rules / 3 signers / 2 policies per rule / 2 contexts / 3 signatures (documented maxima 15 / 15 / 5; the loops are uniform: '
-                          'small-scope argument); real signature cryptography (verifier contracts are oracles) and real policy contracts (C14 covers the library\'s own); '
+                   ' | thorough adds: <= 2 policies per rule in the selection; whole check over two listed rules; batch of 2 contexts'),
+        'outside_claim': ('rule sets beyond 2 listed rules / 2 signers / 2 policies per rule / 2 contexts / 2 signatures (documented maxima 15 / 15 / 5; the loops are uniform: three listed rules at CAP=3 exhaust 12 GB; '
+                          'the whole do_check_auth is checked over registries with at most two listed rules, the selection over every two-rule list shape separately: small-scope argument); real signature cryptography (verifier contracts are oracles) and real policy contracts (C14 covers the library\'s own); '
                           'the host\'s own matching of __check_auth results to the invocation tree; key and signature data longer than 2 bytes, rule names longer than 2 bytes '
                           '(opaque to the code under test); archived persistent entries'),
         'stubs_and_assumes': [
